@@ -12,33 +12,33 @@ CHECKS = {
          "Each oscillator compared with its documented formula evaluated from scratch in double-double at every step whose condition number is <= 1e6; exhaustive over small scalar and bar alphabets for periods 1..=5, sampled to 512 on grid-valued and free positive prices with close independent of (high+low)/2.", "4/C03"),
  "C04": ("differential testing (reset instance vs fresh instance) over bounded-exhaustive histories + proptest histories with special values + counter-wrap history lengths + libFuzzer campaign (thorough) + continuations in other units and signs",
          "All 22 indicators: after any generated history of next/reset (incl. NaN/inf/extreme values) and a final reset(), outputs on an independently drawn finite continuation are compared with a fresh instance, a fresh instance reset twice and a doubly reset instance; parameters/Display compared. Exhaustive for periods 1..=4 over a 5-letter history alphabet to depth 5/6; sampled to periods 256/2048.", "4/C04"),
- "C05": ("model-based testing (replay model: each instance = fresh instance fed its own subsequence, bit-exact, also on a fresh thread) over exhaustive interleavings + proptest + 16-thread stage + libFuzzer campaign (thorough) + exhaustive clone_from matrix (target history x source history)",
+ "C05": ("model-based testing (replay model: each instance = fresh instance fed its own subsequence, bit-exact, also on a fresh thread) over exhaustive interleavings + proptest + 16-thread stage + libFuzzer campaign (thorough) + exhaustive clone_from matrix (target history x source history) + reset() among the interleaved operations (replayed on the model) + predecessor / lock-step instances",
          "All 22 indicators: operations on original / clone / unrelated instance in every interleaving of short sequences (exhaustive) and long random ones; every output must be bit-identical to a fresh instance fed only the inputs addressed to that instance. A 16-thread stage compares concurrent with sequential runs of distinct instances. Real OS schedules are not enumerated.", "4/C05"),
- "C06": ("round-trip differential (bincode serialize/deserialize at every checkpoint, chained) over bounded-exhaustive histories + proptest + very large windows (4 097 .. 66 000 slots) + libFuzzer campaign (thorough)",
+ "C06": ("round-trip differential (bincode serialize/deserialize at every checkpoint, chained, bytes moved directly / through io::Read / framed between other values; plus a second format, serde_json text and serde_json::Value, wherever the state is representable in it) over bounded-exhaustive histories + proptest + very large windows (4 097 .. 66 000 slots) + libFuzzer campaign (thorough)",
          "serde build: all 22 indicators, checkpoint after every prefix of every short history (exhaustive, periods 1..=4) and at generated positions of long ones, restored copy replaces the live one (chained round-trips) while a never-serialized shadow runs in lock-step; continuation outputs, parameters, Display and re-serialized bytes compared; DataItem round-trips.", "4/C06"),
- "C07": ("validity predicate (range) gated by a double-double reference denominator, bounded-exhaustive + proptest regimes pushing the extremes (incl. subnormal price units) + libFuzzer campaign (thorough) + identity-event stage (clone / clone_from into a used target / serde round trip applied mid-stream under the same oracle)",
+ "C07": ("validity predicate (range) gated by a double-double reference denominator, bounded-exhaustive + proptest regimes pushing the extremes (incl. subnormal price units) + libFuzzer campaign (thorough) + identity-event stage (clone / clone_from into a used target / serde round trip applied mid-stream under the same oracle) + reset-segment stage with the next stretch in another price/volume unit",
          "RSI, FastStochastic, SlowStochastic, MFI in [0,100] and ER in [0,1] with the property's slack at every step whose reference denominator is non-zero; exhaustive small alphabets (incl. 1 and 1+2^-20) for periods 1..=5; random regimes (monotone runs, alternating extremes, near-flat, volumes over 12 decades), streams to 5 000 / 50 000.", "4/C07"),
  "C08": ("validity predicate (finite, in range, exact neutral values) on degenerate windows; grid enumeration + proptest (prefix, level, stretch length) + libFuzzer campaign (thorough) + identity-event stage (clone / clone_from into a used target / serde round trip applied mid-stream under the same oracle)",
          "All 22 indicators on flat / zero-flow windows reached from the start or after arbitrary activity (incl. 1e6x spikes), flat stretches from 1 to 3 000 / 8 000 bars (long enough for EMA underflow), periods 1..=8 on a full grid, sampled to 256.", "4/C08"),
- "C09": ("invariants over the history (sign, ordering, hull, histogram identity) after every input; bounded-exhaustive + proptest cancellation streams + 140 000-input sign stage + libFuzzer campaign (thorough) + identity-event stage (clone / clone_from into a used target / serde round trip applied mid-stream under the same oracle) + reset-segment stage",
+ "C09": ("invariants over the history (sign, ordering, hull, histogram identity) after every input; bounded-exhaustive + proptest cancellation streams + 140 000-input sign stage + libFuzzer campaign (thorough) + identity-event stage (clone / clone_from into a used target / serde round trip applied mid-stream under the same oracle) + reset-segment stage + windows to 4 097 slots, multipliers to f64::MAX",
          "SD/MAD/TR/ATR >= 0, Minimum <= Maximum, band ordering, Chandelier exits vs window extremes, histogram = line - signal, SMA/WMA/EMA inside their hull; exhaustive over {-1e12,-1,0,1e-6,1,1e12} for periods 1..=5; random streams engineered for cancellation, multipliers >= 0 incl. 0 and 1e6.", "4/C09"),
  "C10": ("differential (bar path vs documented-field scalar path) + metamorphic field perturbation + DataItem twin, proptest + joint resets and identity events",
          "All 22 indicators on bars with five independently drawn fields: next(&bar) vs next(documented field); one-price bars vs scalar path; undocumented fields replaced by unrelated values (outputs must stay bit-identical); DataItem vs another implementor. The harness also instantiates every indicator on minimal-trait bar types (compile-time).", "4/C10"),
  "C11": ("reference predicate on constructor verdicts/accessors/Display/Default; exhaustive enumeration of period arguments + proptest later histories + long lives with a reset before every power-of-two call count",
          "Every single-period constructor for 0..=4096, all tuples over 0..=24 for MACD/PPO/SlowStochastic, boundary periods up to usize::MAX for allocation-free arguments, special multipliers; built with overflow checks. Default vs new(documented defaults) compared on generated streams.", "4/C11"),
- "C12": ("robustness testing: catch_unwind around every call, deterministic sweeps of every ring state (periods 1..=64 and 14 structural larger ones, 8 special-value schedules) + >2^16 ring turns + proptest op sequences + libFuzzer campaign (thorough); overflow checks and debug assertions on + round-trip-and-continue operation, tie-heavy inputs",
+ "C12": ("robustness testing: catch_unwind around every call, deterministic sweeps of every ring state (periods 1..=64 and 14 structural larger ones, 8 special-value schedules) + >2^16 ring turns + proptest op sequences + libFuzzer campaign (thorough); overflow checks and debug assertions on + round-trip-and-continue operation, tie-heavy inputs, windows of 2^16 slots and more",
          "All 22 indicators x every period 1..=64 x 6 special-value schedules x a reset at every ring phase, each for 3p+3 calls plus clone/serialize/Display/Debug; random sequences for periods to 4096. A hang is reported as inconclusive (exit 2).", "4/C12"),
- "C13": ("reference model (double-double recomputation of the current window) at sampled steps of long generated streams (grid of regimes + periodic stage + proptest) + identity-event stage (clone / clone_from into a used target / serde round trip applied mid-stream under the same oracle) + Default-built instances",
+ "C13": ("reference model (double-double recomputation of the current window) at sampled steps of long generated streams (grid of regimes + periodic saw-tooth and periodic-spike stages + proptest) + identity-event stage (clone / clone_from into a used target / serde round trip applied mid-stream under the same oracle) + Default-built instances",
          "Uninterrupted streams of 2e5 (quick) / 2e6 (thorough) inputs per configuration in a three-decade band under random-walk, alternating-extreme, spike, plateau and saw-tooth regimes; SMA, WMA, SD, BB, MAD, CCI, MFI, MIN, MAX checked against recomputation at about 300 sampled steps and at the end; variance sign checked at every step.", "4/C13"),
- "C14": ("metamorphic testing (scale by 2^k, arbitrary scale, shift, mirror) on twin runs, proptest + identity-event stage (clone / clone_from into a used target / serde round trip applied mid-stream under the same oracle)",
+ "C14": ("metamorphic testing (scale by 2^k, arbitrary scale, shift, mirror) on twin runs (scalar and bar path mixed on both twins), proptest + identity-event stage (clone / clone_from into a used target / serde round trip applied mid-stream under the same oracle)",
          "Twin instances fed x and T(x), compared after every input with the property's tolerances; conditioning and tie rules keep discontinuous comparisons out; all k in -40..=40 visited in the thorough tier.", "4/C14"),
  "C15": ("differential testing (composite vs hand-wired public parts), proptest + 70 000*n-input streams + libFuzzer campaign (thorough) + identity-event stage (clone / clone_from into a used target / serde round trip applied mid-stream under the same oracle) + joint resets of composite and parts + Default-built instances",
          "BB, SlowStochastic, ATR, MACD, PPO, KC, CE, CCI compared at every step with separately constructed public parts combined as documented; every parameter tuple from the period mixture, bars with close != (high+low)/2.", "4/C15"),
- "C16": ("reference predicate + getter round-trip; exhaustive lattice enumeration (11^5 tuples x 120 setter orders, both tiers) + proptest",
+ "C16": ("reference predicate + getter round-trip; exhaustive lattice enumeration (11^5 tuples x 120 setter orders, both tiers) + proptest + sequences of related builds on one thread (rearranged twins) + many builders alive at once + raw-bit-pattern libFuzzer stage (thorough)",
          "The complete lattice {-inf,-2,-1,-0.0,0.0,1,2,3,+inf,NaN}^5 under all 120 setter orders, all proper setter subsets and repeated calls for subsets, random finite tuples: verdict compared with the reference predicate, getters bit-exact, clone equal. Exhaustive within the lattice.", "4/C16"),
- "C17": ("differential testing (full history vs bare suffix) over exhaustive prefix/suffix splits + proptest with 1e6x spikes + libFuzzer campaign (thorough) + identity-event stage (clone / clone_from into a used target / serde round trip applied mid-stream under the same oracle)",
+ "C17": ("differential testing (full history vs bare suffix) over exhaustive prefix/suffix splits + proptest with 1e6x spikes and exact zeros in the prefix + libFuzzer campaign (thorough) + identity-event stage (clone / clone_from into a used target / serde round trip applied mid-stream under the same oracle)",
          "12 windowed indicators: instance fed prefix+suffix vs fresh instance fed only the suffix, compared from the w-th suffix element on (exact for comparison-only indicators, the property's tolerances otherwise); exhaustive for periods 1..=3 over {1,2,1e6}; sampled to period 300 with the exact boundary (extra = 0) forced often.", "4/C17"),
- "C18": ("resource invariant: bincode serialized size and live heap bytes (counting global allocator) vs the parameter bound, grid of shapes + proptest + reset schedules",
+ "C18": ("resource invariant: bincode serialized size and live heap bytes (counting global allocator) vs the parameter bound, grid of single-series shapes, two-series bar shapes (highs and lows following patterns of their own) and extreme price units + proptest + reset schedules",
          "serde build: all 22 indicators x 8 periods x 5 stream shapes (monotone shapes are the worst case for a retained history) for 1e5 (quick) / 1e6 (thorough) inputs: serialized size sampled at every early step and at checkpoints, net heap growth and peak after warm-up measured per thread.", "4/C18"),
 }
 
